@@ -192,6 +192,9 @@ def observe(c):
             t = E.perturb_text(rng, t)
         if t != own:
             answers.append({'text': t, 'own': False})
+    # the library's own answer once more at the end: a checker must not remember the rejected answers it has seen in between
+    if len(answers) > 1:
+        answers.append({'text': own, 'own': True})
     out = []
     for a in answers:
         res = check(a['text'])
